@@ -138,6 +138,10 @@ NUM_ATOMS = {
                       fn=lambda t, d: (d["k"].to_numpy() == t["k"].to_numpy().min()).astype(float)),
     "B(cnt)": dict(vars_=["cnt"], stateful=True,
                    fn=lambda t, d: (d["cnt"].to_numpy() == t["cnt"].to_numpy().min()).astype(float)),
+    "xz": dict(vars_=["xz"], fn=_col("xz")),
+    "center(xz)": dict(vars_=["xz"], stateful=True, fn=lambda t, d: d["xz"].to_numpy(dtype=float) - _mean(t, "xz")),
+    "scale(xz)": dict(vars_=["xz"], stateful=True,
+                      fn=lambda t, d: (d["xz"].to_numpy(dtype=float) - _mean(t, "xz")) / _sd(t, "xz")),
     "minmax(z)": dict(vars_=["z"], stateful=True,
                       fn=lambda t, d: (d["z"].to_numpy(dtype=float) - t["z"].to_numpy(dtype=float).min())
                       / (t["z"].to_numpy(dtype=float).max() - t["z"].to_numpy(dtype=float).min())),
@@ -232,6 +236,12 @@ def case_frame(fr):
     n = len(df)
     df["col 1"] = rng.normal(size=n)
     meta["col 1"] = {"kind": "num"}
+    # a numeric column whose mean is EXACTLY zero (symmetric integers): fitted parameters that happen to be falsy
+    half = np.arange(1, n // 2 + 1, dtype=float)
+    xz = np.concatenate([-half, half] + ([np.zeros(1)] if n % 2 else []))
+    rng.shuffle(xz)
+    df["xz"] = xz
+    meta["xz"] = {"kind": "num"}
     lv = ["p q", "r:s", "t"][: 2 + int(rng.integers(0, 2))]
     idx = frames._balanced(rng, lv, n)
     df["c:1"] = pd.Series([lv[i] for i in idx], dtype="str")
@@ -343,7 +353,7 @@ PROFILES = {
     "stateful": dict(
         num=["x", "z", "w", "np.log(w)", "center(x)", "scale(x)", "standardize(z)", "center(np.log(w))",
              "I(center(x) ** 2)", "scale(center(z))", "bs(x, df=4)", "bs(z, df=5, degree=2)", "poly(x, 2)",
-             "bs(x, knots=kn_x)", "bs(x, knots=kn_x, degree=2, intercept=True)", "binary(k)", "B(cnt)", "minmax(z)",
+             "bs(x, knots=kn_x)", "bs(x, knots=kn_x, degree=2, intercept=True)", "binary(k)", "B(cnt)", "minmax(z)", "xz", "center(xz)", "scale(xz)",
              "bs(z, df=4, lower_bound=-10, upper_bound=20)", "poly(x, 4)",
              "poly(z, 3, raw=True)", "dbl(x)", "{x * 2}", "shift1(z, by=3)"],
         cat=["s", "h", "o", "cu", "co", "C(k)", "C(s)", "T(h)", "S(s)", "C(h, Sum)", "`c:1`", "I(s)", "tag(h)"],
